@@ -379,6 +379,14 @@ func genC14(tier string, r *Rng, emit func(Case)) {
 		emit(Case{Ver: "v3", Op: "AliasTest", Args: t})
 	}
 	genAliasList(r, emit, n/2)
+	// every search entry point with the pattern passed as a window of a longer caller-owned slice (runFind checks the
+	// slice around and, for the eager functions, inside the window afterwards)
+	for i := 0; i < 2*n; i++ {
+		ver := allVers[i%3]
+		if t, ok := genFindCase(r, ver, "T"); ok {
+			emit(Case{Ver: ver, Op: "Find", Args: t})
+		}
+	}
 	// Positions handed out earlier are not altered by later use of the builder (same histories as C11)
 	generators["C11"]("quick", r, func(c Case) {
 		if c.Op == "Hist" && r.Intn(8) == 0 {
@@ -389,5 +397,5 @@ func genC14(tier string, r *Rng, emit func(Case)) {
 
 func init() {
 	register("C14", genC14, map[string]runner{"AliasCtor": runAliasCtor, "AliasPat": runAliasPat, "AliasTest": runAliasTest,
-		"AliasList": runAliasList, "Hist": runC11Hist})
+		"AliasList": runAliasList, "Hist": runC11Hist, "Find": runFind})
 }
